@@ -9,6 +9,18 @@ CHECKS = {
  "C01": dict(cat="exploration", ref="5.1", technique="differential property-based testing against a definitional reference interpreter (proptest choice tapes, type-directed generator, shrinking + AST minimisation)",
    text="generated programs over the whole grammar are evaluated by nederlang::eval and by an AST-walking reference interpreter written from the README; value graph (with sharing), output and error kind must agree",
    note="trusted: harness/src/refint.rs (the specification) and the exclusion rules U1-U21 of DESIGN.md 4.3; exploration never proves absence"),
+ "C02": dict(cat="exploration", ref="5.2", technique="validity predicate over compiler output (bytecode verifier: abstract interpretation of stack heights on all CFG paths) on generated, mutated and random inputs + probed execution",
+   text="every generated / mutated / random input that compiles is checked by a static bytecode verifier on ALL paths (decode, code units, stack-height intervals, jump targets, unit disjointness, index ranges) and then run with probes at every unchecked VM access; the verifier itself is self-tested against 18 hand-assembled bad bytecodes on every run",
+   note="trusted: the stack-effect table of DESIGN.md Appendix B and the verifier (self-tested); exploration over generated inputs, not a proof over all programs"),
+ "C03": dict(cat="exploration", ref="5.3", technique="model-based stateful testing of the collector (operation histories vs reachability model, short histories enumerated exhaustively) + differential testing of allocating programs under a shadow heap",
+   text="allocating programs run under a shadow heap that checks every dereference and quarantines freed blocks, with collector pre/post-conditions evaluated at every cycle and the result compared with the reference interpreter; collector histories (all of length <=4/5 over 3 objects, random up to 40 ops over 8 objects) against a reachability model",
+   note="trusted: shadow heap hook H5 as ground truth, the reachability model; handed-over objects are roots of later cycles (as in every execution of the VM)"),
+ "C04": dict(cat="fault_enumeration", ref="5.4", technique="fault injection at every instruction boundary of generated runs + heap ledger audit under a shadow heap; stateful collector histories with a reachability model",
+   text="each generated allocating program is run to completion and then aborted after k instructions for every k (long runs: 2000 points); after each run the ledger must balance: result live, every other object freed exactly once, nothing unreachable kept by a cycle",
+   note="trusted: hook H2 injects the error on the same exit path as a run-time type error; shadow heap H5"),
+ "C05": dict(cat="exploration", ref="5.5", technique="robustness fuzzing with a totality oracle: generated token sequences, token edits, exhaustive truncations, noise, directed boundary corpus; supervisor process turns dead or hanging workers into findings",
+   text="any input must yield a value or one of five error kinds: random token sequences, edits and complete truncations of the repository's programs, noise, ~250 directed boundary programs and deep nesting on an 8 MB stack; panics, hook events, dead processes and non-terminating front ends are violations",
+   note="trusted: catch_unwind + supervisor/watchdog classification; the VM budget counts as a loop the program spells out"),
  "C06": dict(cat="exploration", ref="5.6", technique="exhaustive enumeration of a boundary lattice + property-based testing against an i128 / IEEE / code-point oracle",
    text="all pairs of the 357-value integer boundary lattice x 11 operators x 3 syntactic forms (exhaustive), plus generated 61-bit, float and string pairs and the complete 7x7 type cross product, under the checked and the release-like build profile",
    note="trusted: i128 arithmetic and host IEEE-754 as oracle; U6 (kind of error not fixed), U11 (ordering of null/bool masked)"),
